@@ -214,7 +214,8 @@ impl Model<Protobuf> {
             RustType::BitVec(_) => ProtobufType::BitsReprByBytesAndBitsLen,
             RustType::Null => ProtobufType::Bytes,
 
-            RustType::Complex(complex, _) => ProtobufType::Complex(complex.clone()),
+            // named like the definition it refers to, see convert_rust_to_protobuf
+            RustType::Complex(complex, _) => ProtobufType::Complex(proto_definition_name(complex)),
 
             RustType::Option(inner) => {
                 // in protobuf everything is optional...
